@@ -37,7 +37,9 @@ import (
 	"github.com/cosmos/cosmos-sdk/types/bech32"
 	gethabi "github.com/ethereum/go-ethereum/accounts/abi"
 	gethcommon "github.com/ethereum/go-ethereum/common"
+	gethcore "github.com/ethereum/go-ethereum/core/types"
 	"github.com/ethereum/go-ethereum/core/vm"
+	"github.com/ethereum/go-ethereum/params"
 
 	. "verifharness/hx"
 
@@ -55,6 +57,34 @@ type c08In struct {
 	Gas   uint64 `json:"gas"`   // gas requested for the precompile call
 	Data  string `json:"data"`  // calldata (hex)
 	Label string `json:"label"` // generator class (histogram only)
+	// Pre: the earlier steps of the SAME transaction (same StateDB / EVM), run in order before the call
+	// under test: other precompile calls and EVM state changes.
+	Pre []c08Step `json:"pre,omitempty"`
+}
+
+// c08Step is one earlier step of the transaction: a precompile call (Evm == "") or an EVM state change
+// ("transfer": value moved between two accounts, "sstore": a storage slot written, "log": a log emitted).
+type c08Step struct {
+	Evm   string `json:"evm,omitempty"`
+	PC    int    `json:"pc"`
+	Kind  string `json:"kind,omitempty"`
+	Value string `json:"value,omitempty"`
+	Gas   uint64 `json:"gas,omitempty"`
+	Data  string `json:"data,omitempty"`
+}
+
+// what was observed of an earlier step (the model runs the whole transaction)
+type c08StepObs struct {
+	Evm      bool     `json:"evm,omitempty"`
+	Reached  bool     `json:"reached"`
+	Class    string   `json:"class"`
+	Left     uint64   `json:"left"`
+	Fwd      uint64   `json:"fwd"`
+	PanicOOG bool     `json:"panic_oog,omitempty"`
+	PanicInt bool     `json:"panic_int,omitempty"`
+	Method   string   `json:"method"`
+	UnpackOK bool     `json:"unpack_ok"`
+	Args     []c08Arg `json:"args"`
 }
 
 type c08Arg struct {
@@ -79,19 +109,28 @@ type c08MsgArg struct {
 }
 
 type c08Obs struct {
-	Reached  bool     `json:"reached"`
-	Class    string   `json:"class"`
-	Left     uint64   `json:"left"`
-	Fwd      uint64   `json:"fwd"`
-	StateEq  bool     `json:"state_eq"`
-	CoreEq   bool     `json:"core_eq"`
-	PanicOOG bool     `json:"panic_oog"`
-	Cost     string   `json:"cost"` // gas the same call consumes with ample gas (forwarded − handed back) when it succeeds then; "" otherwise
-	PanicInt bool     `json:"panic_int"` // sdkmath "integer overflow" (bank supply beyond 256 bits)
-	Method   string   `json:"method"`
-	UnpackOK bool     `json:"unpack_ok"`
-	Args     []c08Arg `json:"args"`
-	Note     string   `json:"note,omitempty"` // first words of the error / panic (not compared)
+	Reached  bool         `json:"reached"`
+	Class    string       `json:"class"`
+	Left     uint64       `json:"left"`
+	Fwd      uint64       `json:"fwd"`
+	StateEq  bool         `json:"state_eq"`
+	CoreEq   bool         `json:"core_eq"`
+	PanicOOG bool         `json:"panic_oog"`
+	Cost     string       `json:"cost"`      // gas the same call consumes with ample gas (forwarded − handed back) when it succeeds then; "" otherwise
+	PanicInt bool         `json:"panic_int"` // sdkmath "integer overflow" (bank supply beyond 256 bits)
+	Method   string       `json:"method"`
+	UnpackOK bool         `json:"unpack_ok"`
+	Args     []c08Arg     `json:"args"`
+	Note     string       `json:"note,omitempty"` // first words of the error / panic (not compared)
+	Pre      []c08StepObs `json:"pre,omitempty"`
+	// DropEq: the same transaction without its FAILED earlier calls commits the same state and gives the call
+	// under test the same outcome class (true when there is no failed earlier call, or the StateDB's budget
+	// of calls - which failed calls use up too - is involved)
+	DropEq bool `json:"drop_eq"`
+}
+
+func mkIn(pc int, kind, value string, gas uint64, data, label string) c08In {
+	return c08In{PC: pc, Kind: kind, Value: value, Gas: gas, Data: data, Label: label}
 }
 
 func abiOf(pc int) *gethabi.ABI {
@@ -233,44 +272,52 @@ func note(s string) string {
 
 const ampleGas uint64 = 8_000_000
 
-// runCase runs the call and, on a second branch of the world, the same call with ample gas: what
-// that one is charged is the call's real cost ("gas charged = gas consumed" is judged against it).
-func (w *world) runCase(in c08In) c08Obs {
-	obs := w.runOnce(in)
+// runCase runs the call (after the earlier steps of its transaction) and, on a second branch of the
+// world, the same transaction with ample gas for the call under test: what that one is charged is the
+// call's real cost ("gas charged = gas consumed" is judged against it).  The input handed back is the
+// input really run: a transaction is cut at the first step that panics (that step becomes the call
+// under test).
+func (w *world) runCase(in c08In) (c08In, c08Obs) {
+	in, obs := w.runOnce(in)
 	if c, ok := w.measure(in); ok {
 		obs.Cost = strconv.FormatUint(c, 10)
 	}
-	return obs
+	return in, obs
 }
 
 func (w *world) measure(in c08In) (uint64, bool) {
 	ref := in
 	ref.Gas = ampleGas
-	r := w.runOnce(ref)
+	_, r := w.runOnce(ref)
 	if r.Reached && r.Class == "ok" && r.Fwd >= r.Left {
 		return r.Fwd - r.Left, true
 	}
 	return 0, false
 }
 
-func (w *world) runOnce(in c08In) c08Obs {
-	data, _ := hex.DecodeString(in.Data)
-	value, ok := new(big.Int).SetString(in.Value, 10)
-	if !ok || value.Sign() < 0 {
-		value = big.NewInt(0)
-	}
-	if in.PC < 0 || in.PC > 2 {
-		in.PC = 0
-	}
-	pcAddr := precompileAddrs[in.PC]
-	obs := c08Obs{Args: []c08Arg{}}
-	obs.Method, obs.UnpackOK, obs.Args = decode(in.PC, data)
+// tx is one EVM transaction in progress: one StateDB, one EVM, on a branch of the world.
+type txRun struct {
+	w      *world
+	ctx    sdk.Context
+	sdb    *statedb.StateDB
+	evmObj *vm.EVM
+	ft     *frameTracer
+	nEvm   int
+}
 
+func (w *world) newTx() *txRun {
 	cctx, _ := w.deps.Ctx.CacheContext()
-	sender := w.deps.Sender.EthAddr
-	caller := sender
-	var target gethcommon.Address
-	switch in.Kind {
+	sdb := w.deps.EvmKeeper.NewStateDB(cctx, statedb.NewEmptyTxConfig(gethcommon.Hash{}))
+	ft := &frameTracer{}
+	evmObj := w.deps.EvmKeeper.NewEVM(cctx, evmtest.MOCK_GETH_MESSAGE, w.deps.EvmKeeper.GetEVMConfig(cctx), ft, sdb)
+	// as ApplyEvmMsg does for every transaction: sender and precompiles are warm before the first opcode runs
+	sdb.PrepareAccessList(w.deps.Sender.EthAddr, nil, evmObj.ActivePrecompiles(params.Rules{}), nil)
+	return &txRun{w: w, ctx: cctx, sdb: sdb, evmObj: evmObj, ft: ft}
+}
+
+func callerOf(w *world, kind string) (caller, target gethcommon.Address) {
+	caller = w.deps.Sender.EthAddr
+	switch kind {
 	case "call", "nested":
 		caller, target = fwdCall, fwdCall
 	case "static":
@@ -280,10 +327,44 @@ func (w *world) runOnce(in c08In) c08Obs {
 	case "callcode":
 		caller, target = fwdCallCode, fwdCallCode
 	}
-	d0, c0 := w.digests(cctx, caller, pcAddr)
-	sdb := w.deps.EvmKeeper.NewStateDB(cctx, statedb.NewEmptyTxConfig(gethcommon.Hash{}))
-	ft := &frameTracer{}
-	evmObj := w.deps.EvmKeeper.NewEVM(cctx, evmtest.MOCK_GETH_MESSAGE, w.deps.EvmKeeper.GetEVMConfig(cctx), ft, sdb)
+	return
+}
+
+// evmChange performs a journaled EVM state change on the transaction's StateDB.
+func (t *txRun) evmChange(what string) {
+	t.nEvm++
+	w := t.w
+	switch what {
+	case "transfer":
+		Recover(func() {
+			_, _, _ = t.evmObj.Call(vm.AccountRef(w.deps.Sender.EthAddr), w.other, nil, 100_000, big.NewInt(1_000_000_000_000))
+		})
+	case "log":
+		t.sdb.AddLog(&gethcore.Log{Address: fwdCall, Topics: []gethcommon.Hash{gethcommon.BigToHash(big.NewInt(int64(t.nEvm)))}, Data: []byte{byte(t.nEvm)}})
+	default: // sstore
+		t.sdb.SetState(fwdCall, gethcommon.BigToHash(big.NewInt(0xC08)), gethcommon.BigToHash(big.NewInt(int64(1000+t.nEvm))))
+	}
+}
+
+// call performs one precompile call on the transaction and reports what the geth wrapper's boundary showed.
+func (t *txRun) call(pc int, kind, valueStr string, gas uint64, dataHex string) (obs c08Obs) {
+	w := t.w
+	data, _ := hex.DecodeString(dataHex)
+	value, ok := new(big.Int).SetString(valueStr, 10)
+	if !ok || value.Sign() < 0 {
+		value = big.NewInt(0)
+	}
+	if pc < 0 || pc > 2 {
+		pc = 0
+	}
+	pcAddr := precompileAddrs[pc]
+	obs = c08Obs{Args: []c08Arg{}, DropEq: true}
+	obs.Method, obs.UnpackOK, obs.Args = decode(pc, data)
+	sender := w.deps.Sender.EthAddr
+	_, target := callerOf(w, kind)
+	evmObj, ft := t.evmObj, t.ft
+	frame0 := len(ft.frames)
+	ft.stack = ft.stack[:0]
 
 	var left uint64
 	var err error
@@ -294,34 +375,33 @@ func (w *world) runOnce(in c08In) c08Obs {
 				pval = r
 			}
 		}()
-		switch in.Kind {
+		switch kind {
 		case "top":
-			_, left, err = evmObj.Call(vm.AccountRef(sender), pcAddr, data, in.Gas, value)
+			_, left, err = evmObj.Call(vm.AccountRef(sender), pcAddr, data, gas, value)
 		case "nested":
-			_, _, err = evmObj.StaticCall(vm.AccountRef(sender), target, fwdInput(pcAddr, in.Gas, big.NewInt(0), data), 12_000_000)
+			_, _, err = evmObj.StaticCall(vm.AccountRef(sender), target, fwdInput(pcAddr, gas, big.NewInt(0), data), 12_000_000)
 		default:
-			_, _, err = evmObj.Call(vm.AccountRef(sender), target, fwdInput(pcAddr, in.Gas, value, data), 12_000_000, big.NewInt(0))
+			_, _, err = evmObj.Call(vm.AccountRef(sender), target, fwdInput(pcAddr, gas, value, data), 12_000_000, big.NewInt(0))
 		}
 	}()
+	frames := ft.frames[frame0:]
 	if pval != nil {
 		obs.Reached = true
 		obs.Class = "panic"
 		_, obs.PanicOOG = pval.(storetypes.ErrorOutOfGas)
 		obs.Note = note(fmt.Sprintf("%T %v", pval, pval))
 		obs.PanicInt = strings.Contains(obs.Note, "integer overflow")
-		obs.Fwd = in.Gas
-		for _, f := range ft.frames {
+		obs.Fwd = gas
+		for _, f := range frames {
 			if f.To == pcAddr {
 				obs.Fwd = f.Gas
 			}
 		}
-		// a panic aborts the transaction: nothing is committed
-		obs.StateEq, obs.CoreEq = true, true
 		return obs
 	}
-	if in.Kind == "top" {
+	if kind == "top" {
 		obs.Reached = true
-		obs.Fwd = in.Gas
+		obs.Fwd = gas
 		obs.Left = left
 		es := ""
 		if err != nil {
@@ -333,37 +413,126 @@ func (w *world) runOnce(in c08In) c08Obs {
 		}
 		obs.Class = classOf(es, err != nil)
 		obs.Note = note(es)
-	} else {
-		var fr *frame
-		for _, f := range ft.frames {
-			if f.To == pcAddr && fr == nil {
-				fr = f
-			}
-		}
-		if fr == nil || !fr.Closed {
-			obs.Reached = false
-			obs.Class = "err"
-			if err != nil {
-				obs.Note = note("outer: " + err.Error())
-			}
-		} else {
-			obs.Reached = true
-			obs.Fwd = fr.Gas
-			obs.Left = fr.Gas - fr.GasUsed
-			obs.Class = classOf(fr.Err, fr.Err != "")
-			obs.Note = note(fr.Err)
-			if err != nil {
-				obs.Note = note("outer: " + err.Error() + " | " + fr.Err)
-			}
+		return obs
+	}
+	var fr *frame
+	for _, f := range frames {
+		if f.To == pcAddr && fr == nil {
+			fr = f
 		}
 	}
-	if cerr := sdb.Commit(); cerr != nil {
-		obs.Note = note("commit: " + cerr.Error() + " | " + obs.Note)
+	if fr == nil || !fr.Closed {
+		obs.Reached = false
+		obs.Class = "err"
+		if err != nil {
+			obs.Note = note("outer: " + err.Error())
+		}
+		return obs
 	}
-	d1, c1 := w.digests(cctx, caller, pcAddr)
-	obs.StateEq, obs.CoreEq = d0 == d1, c0 == c1
+	obs.Reached = true
+	obs.Fwd = fr.Gas
+	obs.Left = fr.Gas - fr.GasUsed
+	obs.Class = classOf(fr.Err, fr.Err != "")
+	obs.Note = note(fr.Err)
+	if err != nil {
+		obs.Note = note("outer: " + err.Error() + " | " + fr.Err)
+	}
 	return obs
 }
+
+// runPre runs the earlier steps; it stops at a step that panics (index returned, -1 otherwise).
+func (t *txRun) runPre(pre []c08Step) (obs []c08StepObs, panicked int, last c08Obs) {
+	for i, st := range pre {
+		if st.Evm != "" {
+			t.evmChange(st.Evm)
+			obs = append(obs, c08StepObs{Evm: true, Args: []c08Arg{}})
+			continue
+		}
+		o := t.call(st.PC, st.Kind, st.Value, st.Gas, st.Data)
+		if o.Class == "panic" {
+			return obs, i, o
+		}
+		obs = append(obs, c08StepObs{Reached: o.Reached, Class: o.Class, Left: o.Left, Fwd: o.Fwd, Method: o.Method, UnpackOK: o.UnpackOK, Args: o.Args})
+	}
+	return obs, -1, last
+}
+
+func (w *world) runOnce(in c08In) (c08In, c08Obs) {
+	if in.PC < 0 || in.PC > 2 {
+		in.PC = 0
+	}
+	pcAddr := precompileAddrs[in.PC]
+	caller, _ := callerOf(w, in.Kind)
+
+	var d0, c0 string
+	var preObs []c08StepObs
+	if len(in.Pre) > 0 {
+		// "state as before the call" = what the same transaction commits when it ends right before the call
+		// (one StateDB at a time: the keeper's bank wrapper mirrors balance changes into the latest one)
+		t0 := w.newTx()
+		if _, p, _ := t0.runPre(in.Pre); p < 0 {
+			if cerr := t0.sdb.Commit(); cerr == nil {
+				d0, c0 = w.digests(t0.ctx, caller, pcAddr)
+			}
+		}
+	}
+	t := w.newTx()
+	if len(in.Pre) == 0 {
+		d0, c0 = w.digests(t.ctx, caller, pcAddr)
+	} else {
+		var p int
+		var o c08Obs
+		preObs, p, o = t.runPre(in.Pre)
+		if p >= 0 {
+			// a panic aborts the transaction: the panicking step is the call under test of a shorter transaction
+			st := in.Pre[p]
+			cut := c08In{PC: st.PC, Kind: st.Kind, Value: st.Value, Gas: st.Gas, Data: st.Data, Label: in.Label + "/cut", Pre: in.Pre[:p]}
+			o.Pre = preObs
+			o.StateEq, o.CoreEq = true, true
+			return cut, o
+		}
+	}
+	obs := t.call(in.PC, in.Kind, in.Value, in.Gas, in.Data)
+	obs.Pre = preObs
+	if obs.Class == "panic" {
+		// a panic aborts the transaction: nothing is committed
+		obs.StateEq, obs.CoreEq = true, true
+		return in, obs
+	}
+	if cerr := t.sdb.Commit(); cerr != nil {
+		obs.Note = note("commit: " + cerr.Error() + " | " + obs.Note)
+	}
+	d1, c1 := w.digests(t.ctx, caller, pcAddr)
+	obs.StateEq, obs.CoreEq = d0 == d1, c0 == c1
+	// a failed call is invisible to the rest of the transaction
+	var kept []c08Step
+	calls, dropped := 1, 0
+	for i, st := range in.Pre {
+		if st.Evm == "" {
+			calls++
+			if po := preObs[i]; po.Reached && (po.Class == "err" || po.Class == "oog") {
+				dropped++
+				continue
+			}
+		}
+		kept = append(kept, st)
+	}
+	if dropped > 0 && calls <= callBudget {
+		t2 := w.newTx()
+		obs.DropEq = false
+		if _, p, _ := t2.runPre(kept); p < 0 {
+			o2 := t2.call(in.PC, in.Kind, in.Value, in.Gas, in.Data)
+			if o2.Class != "panic" && t2.sdb.Commit() == nil {
+				d2, _ := w.digests(t2.ctx, caller, pcAddr)
+				obs.DropEq = d2 == d1 && o2.Class == obs.Class
+			}
+		}
+	}
+	return in, obs
+}
+
+// callBudget: precompile calls one StateDB admits (cases beyond it are not asked the drop question)
+const callBudget = 10
 
 // ---------------------------------------------------------------- generator
 
@@ -677,7 +846,7 @@ func (g *gen) calldata(pc int) (data []byte, label string) {
 	return append(append([]byte{}, m.ID...), g.randBytes(g.r.Intn(200))...), name + "/random-payload"
 }
 
-func (g *gen) gasFor(pc int, data []byte, value *big.Int, kind string) uint64 {
+func (g *gen) gasFor(pc int, data []byte, value *big.Int, kind string, pre []c08Step) uint64 {
 	w := g.w
 	p, _ := w.deps.EvmKeeper.NewEVM(w.deps.Ctx, evmtest.MOCK_GETH_MESSAGE, w.deps.EvmKeeper.GetEVMConfig(w.deps.Ctx), nil,
 		w.deps.EvmKeeper.NewStateDB(w.deps.Ctx, statedb.NewEmptyTxConfig(gethcommon.Hash{}))).Precompile(precompileAddrs[pc])
@@ -692,7 +861,7 @@ func (g *gen) gasFor(pc int, data []byte, value *big.Int, kind string) uint64 {
 	}
 	cost, hasCost := uint64(0), false
 	if g.r.Chance(1, 2) {
-		cost, hasCost = w.measure(c08In{PC: pc, Kind: kind, Value: value.String(), Data: hex.EncodeToString(data)})
+		cost, hasCost = w.measure(c08In{PC: pc, Kind: kind, Value: value.String(), Data: hex.EncodeToString(data), Pre: pre})
 	}
 	if hasCost && cost > req {
 		// sweep around the call's real cost: every G below it must run out of gas
@@ -734,9 +903,10 @@ func (g *gen) gasFor(pc int, data []byte, value *big.Int, kind string) uint64 {
 	return 21000
 }
 
-func (g *gen) one() c08In {
-	pc := g.r.Pick(50, 30, 20)
-	kind := []string{"top", "call", "static", "delegate", "callcode", "nested"}[g.r.Pick(28, 20, 15, 9, 9, 19)]
+var callKinds = []string{"top", "call", "static", "delegate", "callcode", "nested"}
+
+func (g *gen) kindValue() (string, *big.Int) {
+	kind := callKinds[g.r.Pick(28, 20, 15, 9, 9, 19)]
 	value := big.NewInt(0)
 	if kind == "top" || kind == "call" || kind == "callcode" {
 		switch g.r.Pick(72, 22, 6) {
@@ -747,8 +917,207 @@ func (g *gen) one() c08In {
 			value = big.NewInt(5_000_000_000_000)
 		}
 	}
+	return kind, value
+}
+
+func (g *gen) one() c08In {
+	if g.r.Chance(38, 100) {
+		return g.sequence()
+	}
+	pc := g.r.Pick(50, 30, 20)
+	kind, value := g.kindValue()
 	data, label := g.calldata(pc)
-	return c08In{PC: pc, Kind: kind, Value: value.String(), Gas: g.gasFor(pc, data, value, kind), Data: hex.EncodeToString(data), Label: label}
+	return c08In{PC: pc, Kind: kind, Value: value.String(), Gas: g.gasFor(pc, data, value, kind, nil), Data: hex.EncodeToString(data), Label: label}
+}
+
+// ---------------------------------------------------------------- sequences of calls inside one transaction
+
+func (g *gen) packed(pc int, name string, args ...interface{}) string {
+	bz, err := abiOf(pc).Pack(name, args...)
+	if err != nil {
+		panic(err)
+	}
+	return hex.EncodeToString(bz)
+}
+
+// a query that succeeds (leaves nothing but its multistore snapshot on the journal)
+func (g *gen) goodQuery() (pc int, data string, name string) {
+	w := g.w
+	switch g.r.Pick(30, 12, 14, 12, 8, 8, 16) {
+	case 0:
+		return 1, g.packed(1, "query", w.wasmAddr.String(), []byte(`{"count":{}}`)), "query"
+	case 1:
+		return 1, g.packed(1, "queryRaw", w.wasmAddr.String(), []byte("state")), "queryRaw"
+	case 2:
+		return 0, g.packed(0, "whoAmI", w.other.Hex()), "whoAmI"
+	case 3:
+		return 0, g.packed(0, "bankBalance", w.other, g.pick("unibi", w.coinDenom, w.ercDenom)), "bankBalance"
+	case 4:
+		return 0, g.packed(0, "balance", w.other, w.coinErc20), "balance"
+	case 5:
+		return 0, g.packed(0, "getErc20Address", w.coinDenom), "getErc20Address"
+	}
+	return 2, g.packed(2, g.pick("queryExchangeRate", "chainLinkLatestRoundData"), "unibi:uusd"), "oracle"
+}
+
+// a state-changing call that succeeds when called in a non-static context with ample gas
+func (g *gen) goodMutation() (pc int, data string, name string) {
+	w := g.w
+	to := g.pick(w.other.Hex(), eth.EthAddrToNibiruAddr(w.other).String())
+	amt := big.NewInt(int64(g.r.Range(1, 900)))
+	switch g.r.Pick(22, 18, 14, 14, 14, 10, 8) {
+	case 0:
+		return 1, g.packed(1, "execute", w.wasmAddr.String(), []byte(`{"increment":{}}`), []wasmCoin{}), "execute"
+	case 1:
+		return 0, g.packed(0, "bankMsgSend", to, g.pick("unibi", w.coinDenom), amt), "bankMsgSend"
+	case 2:
+		return 0, g.packed(0, "sendToBank", g.pickAddr(w.coinErc20, w.ercErc20), amt, to), "sendToBank"
+	case 3:
+		return 0, g.packed(0, "sendToEvm", g.pick(w.coinDenom, w.ercDenom), amt, to), "sendToEvm"
+	case 4:
+		return 1, g.packed(1, "executeMulti", []wasmExecMsg{
+			{w.wasmAddr.String(), []byte(`{"increment":{}}`), []wasmCoin{}},
+			{w.wasmAddr.String(), []byte(`{"reset":{"count":7}}`), []wasmCoin{}}}), "executeMulti"
+	case 5:
+		return 1, g.packed(1, "execute", w.wasmAddr.String(), []byte(`{"increment":{}}`), []wasmCoin{{"unibi", big.NewInt(int64(g.r.Range(1, 50)))}}), "execute"
+	}
+	return 1, g.packed(1, "instantiate", "", w.wasmCodeID, []byte(`{"count": 3}`), "counter", []wasmCoin{}), "instantiate"
+}
+
+func (g *gen) pickAddr(xs ...gethcommon.Address) gethcommon.Address { return xs[g.r.Intn(len(xs))] }
+
+// a state-changing call that FAILS AFTER it has written to the stores of other modules: a later wasm
+// message is rejected, the contract refuses the message after the funds were moved, the final bank
+// send goes to an account that may not receive, …
+func (g *gen) lateFailure() (pc int, data string, name string) {
+	w := g.w
+	inc := wasmExecMsg{w.wasmAddr.String(), []byte(`{"increment":{}}`), []wasmCoin{}}
+	incFunds := wasmExecMsg{w.wasmAddr.String(), []byte(`{"increment":{}}`), []wasmCoin{{"unibi", big.NewInt(int64(g.r.Range(1, 50)))}}}
+	bad := wasmExecMsg{w.wasmAddr.String(), []byte(g.pick(`{"bogus":1}`, `{"invalid": "json"}`, `{"reset":{"count":"x"}}`)), []wasmCoin{}}
+	noContract := wasmExecMsg{eth.EthAddrToNibiruAddr(w.other).String(), []byte(`{"increment":{}}`), []wasmCoin{}}
+	blocked := "nibi17xpfvakm2amg962yls6f84z3kell8c5l8u8ezw" // fee collector: a module account the bank refuses to credit
+	amt := big.NewInt(int64(g.r.Range(1, 900)))
+	switch g.r.Pick(24, 10, 10, 14, 12, 10, 10, 10) {
+	case 0:
+		return 1, g.packed(1, "executeMulti", []wasmExecMsg{inc, bad}), "executeMulti"
+	case 1:
+		return 1, g.packed(1, "executeMulti", []wasmExecMsg{incFunds, inc, noContract}), "executeMulti"
+	case 2:
+		return 1, g.packed(1, "executeMulti", []wasmExecMsg{inc, inc, {w.wasmAddr.String(), []byte(`{"increment":{}}`), []wasmCoin{{"zzz", big.NewInt(5)}}}}), "executeMulti"
+	case 3:
+		// funds reach the contract before it rejects the message
+		return 1, g.packed(1, "execute", w.wasmAddr.String(), []byte(g.pick(`{"bogus":1}`, `{"reset":{"count":"x"}}`)), []wasmCoin{{"unibi", big.NewInt(int64(g.r.Range(1, 50)))}}), "execute"
+	case 4:
+		// ERC20-born token: ERC20 moved to the module, coins minted, then the send to the recipient is refused
+		return 0, g.packed(0, "sendToBank", w.ercErc20, amt, blocked), "sendToBank"
+	case 5:
+		return 0, g.packed(0, "sendToBank", w.coinErc20, amt, blocked), "sendToBank"
+	case 6:
+		return 1, g.packed(1, "instantiate", "", w.wasmCodeID, []byte(g.pick(`{}`, `{"count":"x"}`, `bad`)), "counter", []wasmCoin{{"unibi", big.NewInt(int64(g.r.Range(1, 50)))}}), "instantiate"
+	}
+	return 0, g.packed(0, "bankMsgSend", blocked, g.pick("unibi", w.coinDenom), amt), "bankMsgSend"
+}
+
+// a call that fails before it writes anything (guard, validator, decoding)
+func (g *gen) earlyFailure() (pc int, data string, name string) {
+	w := g.w
+	switch g.r.Pick(30, 25, 25, 20) {
+	case 0:
+		return 0, g.packed(0, "bankMsgSend", w.other.Hex(), "", big.NewInt(1)), "bankMsgSend"
+	case 1:
+		return 1, g.packed(1, "execute", "not an address", []byte(`{"increment":{}}`), []wasmCoin{}), "execute"
+	case 2:
+		return 0, hex.EncodeToString(append(append([]byte{}, abiOf(0).Methods["sendToBank"].ID...), 1, 2, 3)), "sendToBank"
+	}
+	return g.r.Intn(3), "deadbeef", "unknown"
+}
+
+func (g *gen) stepCall(what int) c08Step {
+	var pc int
+	var data string
+	switch what {
+	case 0:
+		pc, data, _ = g.goodQuery()
+	case 1:
+		pc, data, _ = g.goodMutation()
+	case 2:
+		pc, data, _ = g.lateFailure()
+	default:
+		pc, data, _ = g.earlyFailure()
+	}
+	kind := callKinds[g.r.Pick(34, 26, 16, 6, 6, 12)]
+	if what == 1 || what == 2 {
+		kind = []string{"top", "call"}[g.r.Pick(60, 40)] // a context in which the body really runs
+	}
+	gas := uint64(3_000_000)
+	if what == 2 && g.r.Chance(1, 5) {
+		gas = 8_000_000
+	}
+	return c08Step{PC: pc, Kind: kind, Value: "0", Gas: gas, Data: data}
+}
+
+func (g *gen) evmStep() c08Step { return c08Step{Evm: g.pick("sstore", "transfer", "log")} }
+
+// sequence: a transaction of several steps; the last call is the one under test.  The earlier steps mix
+// successful queries, successful mutations, early and late failures and EVM state changes; the call under
+// test is, more often than not, a state-changing call that fails after partial writes (late failure, or a
+// good call run out of gas in the middle of its body).
+func (g *gen) sequence() c08In {
+	var pre []c08Step
+	label := "seq"
+	switch g.r.Pick(40, 22, 14, 12, 7, 5) {
+	case 0: // directly behind a query
+		pre = append(pre, g.stepCall(0))
+		label += "/query"
+	case 1: // directly behind a state-changing call
+		pre = append(pre, g.stepCall(g.r.Pick(0, 70, 30)))
+		label += "/mutation"
+	case 2: // an EVM state change in between
+		pre = append(pre, g.stepCall(g.r.Pick(60, 30, 10)), g.evmStep())
+		label += "/call-evm"
+	case 3: // behind a failed call
+		pre = append(pre, g.stepCall(g.r.Pick(50, 25, 0, 25)), g.stepCall(g.r.Pick(0, 0, 50, 50)))
+		label += "/failed"
+	case 4: // anything, 2-4 steps
+		n := g.r.Range(2, 4)
+		for i := 0; i < n; i++ {
+			if g.r.Chance(1, 5) {
+				pre = append(pre, g.evmStep())
+			} else {
+				pre = append(pre, g.stepCall(g.r.Pick(40, 30, 15, 15)))
+			}
+		}
+		label += "/mixed"
+	default: // around the StateDB's budget of precompile calls
+		n := g.r.Range(8, 11)
+		for i := 0; i < n; i++ {
+			pc, data, _ := g.goodQuery()
+			pre = append(pre, c08Step{PC: pc, Kind: g.pick("top", "static", "call"), Value: "0", Gas: 2_000_000, Data: data})
+		}
+		label += "/budget"
+	}
+	var in c08In
+	switch g.r.Pick(34, 30, 10, 26) {
+	case 0:
+		pc, data, name := g.lateFailure()
+		in = c08In{PC: pc, Kind: []string{"top", "call"}[g.r.Pick(55, 45)], Value: "0", Gas: []uint64{3_000_000, 8_000_000}[g.r.Pick(70, 30)], Data: data, Label: label + ">" + name + "/late-failure"}
+	case 1:
+		// a good state-changing call with the forwarded gas swept below its cost: out of gas after partial writes
+		pc, data, name := g.goodMutation()
+		bz, _ := hex.DecodeString(data)
+		kind := []string{"top", "call"}[g.r.Pick(55, 45)]
+		in = c08In{PC: pc, Kind: kind, Value: "0", Gas: g.gasFor(pc, bz, big.NewInt(0), kind, pre), Data: data, Label: label + ">" + name + "/gas-sweep"}
+	case 2:
+		pc, data, name := g.goodQuery()
+		in = c08In{PC: pc, Kind: callKinds[g.r.Intn(len(callKinds))], Value: "0", Gas: 2_000_000, Data: data, Label: label + ">" + name + "/query"}
+	default:
+		pc := g.r.Pick(50, 30, 20)
+		kind, value := g.kindValue()
+		data, l := g.calldata(pc)
+		in = c08In{PC: pc, Kind: kind, Value: value.String(), Gas: g.gasFor(pc, data, value, kind, pre), Data: hex.EncodeToString(data), Label: label + ">" + l}
+	}
+	in.Pre = pre
+	return in
 }
 
 // openers: the historic failure shapes and the boundary cases, run first on every check
@@ -773,58 +1142,58 @@ func (w *world) openers() []c08In {
 		out = append(out, c08In{PC: pc, Kind: "top", Value: "0", Gas: 1_000_000, Data: "", Label: "opener/empty"})
 	}
 	out = append(out,
-		c08In{0, "top", "0", 1_000_000, "01", "opener/short"},
-		c08In{0, "call", "0", 1_000_000, "010203", "opener/short"},
-		c08In{0, "top", "1000000000000", 1_000_000, "", "opener/plain-transfer"},
-		c08In{0, "top", "0", 1_000_000, pack(ftABI, "bankMsgSend", to, "", big.NewInt(1)), "opener/bankMsgSend-empty-denom"},
-		c08In{0, "call", "0", 1_000_000, pack(ftABI, "bankMsgSend", to, "unibi", two256m1), "opener/bankMsgSend-max"},
-		c08In{0, "top", "0", 1_000_000, send, "opener/bankMsgSend-ok"},
-		c08In{0, "static", "0", 1_000_000, send, "opener/static-mutation"},
-		c08In{0, "delegate", "0", 1_000_000, send, "opener/delegate-mutation"},
-		c08In{0, "callcode", "0", 1_000_000, send, "opener/callcode-mutation"},
-		c08In{0, "nested", "0", 1_000_000, send, "opener/nested-static-mutation"},
-		c08In{1, "nested", "0", 3_000_000, inc, "opener/nested-static-wasm-execute"},
-		c08In{1, "call", "0", 3_000_000, inc, "opener/wasm-execute-ok"},
-		c08In{1, "static", "0", 3_000_000, inc, "opener/static-wasm-execute"},
-		c08In{0, "top", "0", whoReq, who, "opener/whoAmI-exact-gas"},
-		c08In{0, "top", "0", whoReq - 1, who, "opener/whoAmI-gas-minus-1"},
-		c08In{0, "static", "0", 1_000_000, who, "opener/whoAmI-static"},
-		c08In{0, "top", "1000000000000", 1_000_000, who, "opener/query-with-value"},
-		c08In{2, "top", "0", qReq + 500, q, "opener/oracle-gas-inside-body"},
-		c08In{2, "call", "0", qReq + 1000, q, "opener/oracle-gas-inside-body"},
-		c08In{2, "top", "1000000000000", 1_000_000, q, "opener/oracle-query-with-value"},
-		c08In{2, "top", "0", 1_000_000, q, "opener/oracle-ok"},
+		mkIn(0, "top", "0", 1_000_000, "01", "opener/short"),
+		mkIn(0, "call", "0", 1_000_000, "010203", "opener/short"),
+		mkIn(0, "top", "1000000000000", 1_000_000, "", "opener/plain-transfer"),
+		mkIn(0, "top", "0", 1_000_000, pack(ftABI, "bankMsgSend", to, "", big.NewInt(1)), "opener/bankMsgSend-empty-denom"),
+		mkIn(0, "call", "0", 1_000_000, pack(ftABI, "bankMsgSend", to, "unibi", two256m1), "opener/bankMsgSend-max"),
+		mkIn(0, "top", "0", 1_000_000, send, "opener/bankMsgSend-ok"),
+		mkIn(0, "static", "0", 1_000_000, send, "opener/static-mutation"),
+		mkIn(0, "delegate", "0", 1_000_000, send, "opener/delegate-mutation"),
+		mkIn(0, "callcode", "0", 1_000_000, send, "opener/callcode-mutation"),
+		mkIn(0, "nested", "0", 1_000_000, send, "opener/nested-static-mutation"),
+		mkIn(1, "nested", "0", 3_000_000, inc, "opener/nested-static-wasm-execute"),
+		mkIn(1, "call", "0", 3_000_000, inc, "opener/wasm-execute-ok"),
+		mkIn(1, "static", "0", 3_000_000, inc, "opener/static-wasm-execute"),
+		mkIn(0, "top", "0", whoReq, who, "opener/whoAmI-exact-gas"),
+		mkIn(0, "top", "0", whoReq-1, who, "opener/whoAmI-gas-minus-1"),
+		mkIn(0, "static", "0", 1_000_000, who, "opener/whoAmI-static"),
+		mkIn(0, "top", "1000000000000", 1_000_000, who, "opener/query-with-value"),
+		mkIn(2, "top", "0", qReq+500, q, "opener/oracle-gas-inside-body"),
+		mkIn(2, "call", "0", qReq+1000, q, "opener/oracle-gas-inside-body"),
+		mkIn(2, "top", "1000000000000", 1_000_000, q, "opener/oracle-query-with-value"),
+		mkIn(2, "top", "0", 1_000_000, q, "opener/oracle-ok"),
 		// address strings that are VALID bech32 with unusual payload lengths (1..255 bytes are accepted by the SDK)
-		c08In{0, "top", "0", 1_000_000, pack(ftABI, "whoAmI", bech32Of(3, 0xab)), "opener/bech32-len3-whoAmI"},
-		c08In{0, "call", "0", 1_000_000, pack(ftABI, "whoAmI", bech32Of(1, 7)), "opener/bech32-len1-whoAmI"},
-		c08In{0, "static", "0", 1_000_000, pack(ftABI, "whoAmI", bech32Of(19, 1)), "opener/bech32-len19-whoAmI"},
-		c08In{0, "delegate", "0", 1_000_000, pack(ftABI, "whoAmI", bech32Of(3, 0xab)), "opener/bech32-len3-whoAmI"},
-		c08In{0, "nested", "0", 1_000_000, pack(ftABI, "whoAmI", bech32Of(21, 3)), "opener/bech32-len21-whoAmI"},
-		c08In{0, "top", "0", 1_000_000, pack(ftABI, "whoAmI", bech32Of(32, 9)), "opener/bech32-len32-whoAmI"},
-		c08In{0, "call", "0", 1_000_000, pack(ftABI, "whoAmI", bech32Of(255, 0)), "opener/bech32-len255-whoAmI"},
-		c08In{0, "top", "0", 1_000_000, pack(ftABI, "whoAmI", strings.ToUpper(bech32Of(3, 0xab))), "opener/bech32-upper-whoAmI"},
-		c08In{0, "top", "0", 1_000_000, pack(ftABI, "bankMsgSend", bech32Of(3, 0xab), "unibi", big.NewInt(5)), "opener/bech32-len3-bankMsgSend"},
-		c08In{0, "call", "0", 1_000_000, pack(ftABI, "bankMsgSend", bech32Of(19, 2), "unibi", big.NewInt(5)), "opener/bech32-len19-bankMsgSend"},
-		c08In{0, "top", "0", 1_000_000, pack(ftABI, "bankMsgSend", bech32Of(32, 9), "unibi", big.NewInt(5)), "opener/bech32-len32-bankMsgSend"},
-		c08In{0, "static", "0", 1_000_000, pack(ftABI, "bankMsgSend", bech32Of(3, 0xab), "unibi", big.NewInt(5)), "opener/bech32-len3-bankMsgSend"},
-		c08In{0, "top", "0", 3_000_000, pack(ftABI, "sendToBank", w.ercErc20, big.NewInt(5), bech32Of(3, 0xab)), "opener/bech32-len3-sendToBank"},
-		c08In{0, "call", "0", 3_000_000, pack(ftABI, "sendToBank", w.coinErc20, big.NewInt(5), bech32Of(32, 4)), "opener/bech32-len32-sendToBank"},
-		c08In{0, "top", "0", 3_000_000, pack(ftABI, "sendToEvm", w.coinDenom, big.NewInt(5), bech32Of(3, 0xab)), "opener/bech32-len3-sendToEvm"},
-		c08In{0, "call", "0", 3_000_000, pack(ftABI, "sendToEvm", w.ercDenom, big.NewInt(5), bech32Of(19, 5)), "opener/bech32-len19-sendToEvm"},
-		c08In{1, "top", "0", 3_000_000, pack(wABI, "execute", bech32Of(3, 0xab), []byte(`{"increment":{}}`), []wasmCoin{}), "opener/bech32-len3-wasm-execute"},
-		c08In{1, "static", "0", 3_000_000, pack(wABI, "query", bech32Of(19, 1), []byte(`{"count":{}}`)), "opener/bech32-len19-wasm-query"},
-		c08In{1, "call", "0", 3_000_000, pack(wABI, "queryRaw", bech32Of(255, 1), []byte("state")), "opener/bech32-len255-wasm-queryRaw"},
+		mkIn(0, "top", "0", 1_000_000, pack(ftABI, "whoAmI", bech32Of(3, 0xab)), "opener/bech32-len3-whoAmI"),
+		mkIn(0, "call", "0", 1_000_000, pack(ftABI, "whoAmI", bech32Of(1, 7)), "opener/bech32-len1-whoAmI"),
+		mkIn(0, "static", "0", 1_000_000, pack(ftABI, "whoAmI", bech32Of(19, 1)), "opener/bech32-len19-whoAmI"),
+		mkIn(0, "delegate", "0", 1_000_000, pack(ftABI, "whoAmI", bech32Of(3, 0xab)), "opener/bech32-len3-whoAmI"),
+		mkIn(0, "nested", "0", 1_000_000, pack(ftABI, "whoAmI", bech32Of(21, 3)), "opener/bech32-len21-whoAmI"),
+		mkIn(0, "top", "0", 1_000_000, pack(ftABI, "whoAmI", bech32Of(32, 9)), "opener/bech32-len32-whoAmI"),
+		mkIn(0, "call", "0", 1_000_000, pack(ftABI, "whoAmI", bech32Of(255, 0)), "opener/bech32-len255-whoAmI"),
+		mkIn(0, "top", "0", 1_000_000, pack(ftABI, "whoAmI", strings.ToUpper(bech32Of(3, 0xab))), "opener/bech32-upper-whoAmI"),
+		mkIn(0, "top", "0", 1_000_000, pack(ftABI, "bankMsgSend", bech32Of(3, 0xab), "unibi", big.NewInt(5)), "opener/bech32-len3-bankMsgSend"),
+		mkIn(0, "call", "0", 1_000_000, pack(ftABI, "bankMsgSend", bech32Of(19, 2), "unibi", big.NewInt(5)), "opener/bech32-len19-bankMsgSend"),
+		mkIn(0, "top", "0", 1_000_000, pack(ftABI, "bankMsgSend", bech32Of(32, 9), "unibi", big.NewInt(5)), "opener/bech32-len32-bankMsgSend"),
+		mkIn(0, "static", "0", 1_000_000, pack(ftABI, "bankMsgSend", bech32Of(3, 0xab), "unibi", big.NewInt(5)), "opener/bech32-len3-bankMsgSend"),
+		mkIn(0, "top", "0", 3_000_000, pack(ftABI, "sendToBank", w.ercErc20, big.NewInt(5), bech32Of(3, 0xab)), "opener/bech32-len3-sendToBank"),
+		mkIn(0, "call", "0", 3_000_000, pack(ftABI, "sendToBank", w.coinErc20, big.NewInt(5), bech32Of(32, 4)), "opener/bech32-len32-sendToBank"),
+		mkIn(0, "top", "0", 3_000_000, pack(ftABI, "sendToEvm", w.coinDenom, big.NewInt(5), bech32Of(3, 0xab)), "opener/bech32-len3-sendToEvm"),
+		mkIn(0, "call", "0", 3_000_000, pack(ftABI, "sendToEvm", w.ercDenom, big.NewInt(5), bech32Of(19, 5)), "opener/bech32-len19-sendToEvm"),
+		mkIn(1, "top", "0", 3_000_000, pack(wABI, "execute", bech32Of(3, 0xab), []byte(`{"increment":{}}`), []wasmCoin{}), "opener/bech32-len3-wasm-execute"),
+		mkIn(1, "static", "0", 3_000_000, pack(wABI, "query", bech32Of(19, 1), []byte(`{"count":{}}`)), "opener/bech32-len19-wasm-query"),
+		mkIn(1, "call", "0", 3_000_000, pack(wABI, "queryRaw", bech32Of(255, 1), []byte("state")), "opener/bech32-len255-wasm-queryRaw"),
 		// funds arrays naming one denom twice with amounts summing to 2^256
-		c08In{1, "top", "0", 3_000_000, pack(wABI, "execute", w.wasmAddr.String(), []byte(`{"increment":{}}`),
-			[]wasmCoin{{"unibi", two255}, {"unibi", two255}}), "opener/wasm-execute-dup-funds"},
-		c08In{1, "call", "0", 3_000_000, pack(wABI, "instantiate", "", w.wasmCodeID, []byte(`{"count": 0}`), "x",
-			[]wasmCoin{{"unibi", two256m1}, {"unibi", big.NewInt(1)}}), "opener/wasm-instantiate-dup-funds"},
-		c08In{1, "top", "0", 3_000_000, pack(wABI, "executeMulti", []wasmExecMsg{{w.wasmAddr.String(), []byte(`{"increment":{}}`),
-			[]wasmCoin{{"ucoin", two255}, {"ucoin", two255}}}}), "opener/wasm-executeMulti-dup-funds"},
+		mkIn(1, "top", "0", 3_000_000, pack(wABI, "execute", w.wasmAddr.String(), []byte(`{"increment":{}}`),
+			[]wasmCoin{{"unibi", two255}, {"unibi", two255}}), "opener/wasm-execute-dup-funds"),
+		mkIn(1, "call", "0", 3_000_000, pack(wABI, "instantiate", "", w.wasmCodeID, []byte(`{"count": 0}`), "x",
+			[]wasmCoin{{"unibi", two256m1}, {"unibi", big.NewInt(1)}}), "opener/wasm-instantiate-dup-funds"),
+		mkIn(1, "top", "0", 3_000_000, pack(wABI, "executeMulti", []wasmExecMsg{{w.wasmAddr.String(), []byte(`{"increment":{}}`),
+			[]wasmCoin{{"ucoin", two255}, {"ucoin", two255}}}}), "opener/wasm-executeMulti-dup-funds"),
 		// bank supply of the ERC20-born denom is 2^255: minting 2^255 more needs 257 bits
-		c08In{0, "top", "0", 3_000_000, pack(ftABI, "sendToBank", w.ercErc20, two255, to), "opener/sendToBank-supply-overflow"},
-		c08In{0, "call", "0", 3_000_000, pack(ftABI, "sendToBank", w.ercErc20, two255, to), "opener/sendToBank-supply-overflow"},
-		c08In{0, "top", "0", 3_000_000, pack(ftABI, "sendToBank", w.ercErc20, new(big.Int).Sub(two255, big.NewInt(5_000_001)), to), "opener/sendToBank-supply-just-fits"},
+		mkIn(0, "top", "0", 3_000_000, pack(ftABI, "sendToBank", w.ercErc20, two255, to), "opener/sendToBank-supply-overflow"),
+		mkIn(0, "call", "0", 3_000_000, pack(ftABI, "sendToBank", w.ercErc20, two255, to), "opener/sendToBank-supply-overflow"),
+		mkIn(0, "top", "0", 3_000_000, pack(ftABI, "sendToBank", w.ercErc20, new(big.Int).Sub(two255, big.NewInt(5_000_001)), to), "opener/sendToBank-supply-just-fits"),
 	)
 	// every ABI method with arguments that let it succeed, in every call kind: each state-changing
 	// method meets each read-only context, each query each kind, on every run
@@ -837,7 +1206,7 @@ func (w *world) openers() []c08In {
 				continue
 			}
 			for _, kind := range []string{"top", "call", "static", "delegate", "callcode", "nested"} {
-				out = append(out, c08In{pc, kind, "0", 3_000_000, hex.EncodeToString(bz), "opener/matrix-" + kind})
+				out = append(out, mkIn(pc, kind, "0", 3_000_000, hex.EncodeToString(bz), "opener/matrix-"+kind))
 			}
 			// forwarded gas around the call's real cost (measured with ample gas) and its RequiredGas
 			for _, kind := range []string{"top", "call"} {
@@ -854,11 +1223,112 @@ func (w *world) openers() []c08In {
 					continue
 				}
 				for _, gq := range []uint64{cost, cost - 1, cost - req/2, cost - req, cost - req - 1} {
-					out = append(out, c08In{pc, kind, "0", gq, hex.EncodeToString(bz), "opener/gas-sweep-" + kind})
+					out = append(out, mkIn(pc, kind, "0", gq, hex.EncodeToString(bz), "opener/gas-sweep-"+kind))
 				}
 			}
 		}
 	}
+	if w.storeKeys != nil {
+		out = append(out, w.sequenceOpeners()...)
+	}
+	return out
+}
+
+// sequenceOpeners: transactions of several steps on one StateDB; the call under test stands directly behind
+// a successful query / a state-changing call / a failed call / an EVM state change, and succeeds, fails
+// early, or fails AFTER partial writes to the bank / wasm stores (late failure, out of gas inside the body).
+func (w *world) sequenceOpeners() []c08In {
+	wABI, ftABI, oABI := abiOf(1), abiOf(0), abiOf(2)
+	pack := func(a *gethabi.ABI, name string, args ...interface{}) string {
+		return hex.EncodeToString(mustPack(a, name, args...))
+	}
+	wa := w.wasmAddr.String()
+	blocked := "nibi17xpfvakm2amg962yls6f84z3kell8c5l8u8ezw"
+	inc := wasmExecMsg{wa, []byte(`{"increment":{}}`), []wasmCoin{}}
+	bad := wasmExecMsg{wa, []byte(`{"invalid": "json"}`), []wasmCoin{}}
+	qWasm := pack(wABI, "query", wa, []byte(`{"count":{}}`))
+	qWho := pack(ftABI, "whoAmI", w.other.Hex())
+	qBal := pack(ftABI, "bankBalance", w.other, "unibi")
+	qOracle := pack(oABI, "queryExchangeRate", "unibi:uusd")
+	multiLate := pack(wABI, "executeMulti", []wasmExecMsg{inc, bad})
+	execLate := pack(wABI, "execute", wa, []byte(`{"bogus":1}`), []wasmCoin{{"unibi", big.NewInt(7)}})
+	instLate := pack(wABI, "instantiate", "", w.wasmCodeID, []byte(`{}`), "counter", []wasmCoin{{"unibi", big.NewInt(7)}})
+	bankLateErc := pack(ftABI, "sendToBank", w.ercErc20, big.NewInt(5), blocked)
+	bankLateCoin := pack(ftABI, "sendToBank", w.coinErc20, big.NewInt(5), blocked)
+	execOK := pack(wABI, "execute", wa, []byte(`{"increment":{}}`), []wasmCoin{})
+	sendOK := pack(ftABI, "bankMsgSend", w.other.Hex(), "unibi", big.NewInt(5))
+	toBankOK := pack(ftABI, "sendToBank", w.ercErc20, big.NewInt(5), w.other.Hex())
+	toEvmOK := pack(ftABI, "sendToEvm", w.coinDenom, big.NewInt(5), w.other.Hex())
+	early := pack(ftABI, "bankMsgSend", w.other.Hex(), "", big.NewInt(1))
+	call := func(pc int, kind, data string) c08Step {
+		return c08Step{PC: pc, Kind: kind, Value: "0", Gas: 3_000_000, Data: data}
+	}
+	seq := func(label string, pc int, kind string, gas uint64, data string, pre ...c08Step) c08In {
+		return c08In{PC: pc, Kind: kind, Value: "0", Gas: gas, Data: data, Label: "opener/seq-" + label, Pre: pre}
+	}
+	out := []c08In{
+		// query, then directly a state-changing call that fails after its first write
+		seq("query>executeMulti-late", 1, "top", 5_000_000, multiLate, call(1, "static", qWasm)),
+		seq("query>executeMulti-late", 1, "call", 5_000_000, multiLate, call(1, "top", qWasm)),
+		seq("query>executeMulti-late", 1, "top", 5_000_000, multiLate, call(0, "call", qWho)),
+		seq("query>execute-late", 1, "top", 3_000_000, execLate, call(2, "top", qOracle)),
+		seq("query>instantiate-late", 1, "call", 3_000_000, instLate, call(1, "static", qWasm)),
+		seq("query>sendToBank-late", 0, "top", 3_000_000, bankLateErc, call(0, "static", qBal)),
+		seq("query>sendToBank-late", 0, "call", 3_000_000, bankLateCoin, call(0, "top", qWho)),
+		seq("query>query>executeMulti-late", 1, "top", 5_000_000, multiLate, call(1, "static", qWasm), call(2, "static", qOracle)),
+		// the same calls alone, behind a state-changing call, behind an EVM state change, behind failed calls
+		seq("executeMulti-late", 1, "top", 5_000_000, multiLate),
+		seq("sendToBank-late", 0, "top", 3_000_000, bankLateErc),
+		seq("execute-late", 1, "top", 3_000_000, execLate),
+		seq("mutation>executeMulti-late", 1, "top", 5_000_000, multiLate, call(1, "top", execOK)),
+		seq("mutation>sendToBank-late", 0, "top", 3_000_000, bankLateErc, call(0, "top", sendOK)),
+		seq("mutation>mutation>execute-late", 1, "call", 3_000_000, execLate, call(0, "call", toEvmOK), call(0, "top", toBankOK)),
+		seq("query>sstore>executeMulti-late", 1, "top", 5_000_000, multiLate, call(1, "static", qWasm), c08Step{Evm: "sstore"}),
+		seq("query>transfer>sendToBank-late", 0, "top", 3_000_000, bankLateErc, call(0, "static", qBal), c08Step{Evm: "transfer"}),
+		seq("query>log>execute-late", 1, "top", 3_000_000, execLate, call(1, "top", qWasm), c08Step{Evm: "log"}),
+		seq("late>executeMulti-late", 1, "top", 5_000_000, multiLate, call(1, "top", multiLate)),
+		seq("early>query>executeMulti-late", 1, "top", 5_000_000, multiLate, call(0, "top", early), call(1, "static", qWasm)),
+		seq("refused>executeMulti-late", 1, "top", 5_000_000, multiLate, call(1, "static", execOK)),
+		// behind a query: early failure, refusal in static context, success (its writes must stay)
+		seq("query>early", 0, "top", 3_000_000, early, call(1, "static", qWasm)),
+		seq("query>static-mutation", 1, "static", 3_000_000, execOK, call(1, "static", qWasm)),
+		seq("query>mutation-ok", 1, "top", 3_000_000, execOK, call(1, "static", qWasm)),
+		seq("query>mutation-ok", 0, "call", 3_000_000, toBankOK, call(0, "static", qBal)),
+		seq("late>query", 1, "static", 3_000_000, qWasm, call(1, "top", multiLate)),
+	}
+	// behind a query: a good state-changing call with the forwarded gas swept below its cost
+	for _, m := range []struct {
+		pc   int
+		data string
+	}{{1, execOK}, {0, sendOK}, {0, toBankOK}, {0, toEvmOK}} {
+		for _, kind := range []string{"top", "call"} {
+			pre := []c08Step{call(1, "static", qWasm)}
+			cost, ok := w.measure(c08In{PC: m.pc, Kind: kind, Value: "0", Data: m.data, Pre: pre})
+			req := uint64(len(m.data)/2-4)*30 + 2000
+			if !ok || cost <= req+1 {
+				continue
+			}
+			for _, gq := range []uint64{cost, cost - 1, cost - req/2, cost - req} {
+				out = append(out, c08In{PC: m.pc, Kind: kind, Value: "0", Gas: gq, Data: m.data, Label: "opener/seq-query>gas-sweep", Pre: pre})
+			}
+		}
+	}
+	// the StateDB's budget of precompile calls: the 10th call passes, the 11th fails closed
+	queries := func(n int) []c08Step {
+		var pre []c08Step
+		for i := 0; i < n; i++ {
+			pre = append(pre, c08Step{PC: []int{1, 0, 2}[i%3], Kind: []string{"static", "top", "call"}[i%3], Value: "0", Gas: 2_000_000, Data: []string{qWasm, qWho, qOracle}[i%3]})
+		}
+		return pre
+	}
+	out = append(out,
+		c08In{PC: 1, Kind: "static", Value: "0", Gas: 2_000_000, Data: qWasm, Label: "opener/seq-budget-10th", Pre: queries(9)},
+		c08In{PC: 1, Kind: "top", Value: "0", Gas: 3_000_000, Data: execOK, Label: "opener/seq-budget-10th", Pre: queries(9)},
+		c08In{PC: 1, Kind: "static", Value: "0", Gas: 2_000_000, Data: qWasm, Label: "opener/seq-budget-11th", Pre: queries(10)},
+		c08In{PC: 1, Kind: "top", Value: "0", Gas: 3_000_000, Data: execOK, Label: "opener/seq-budget-11th", Pre: queries(10)},
+		c08In{PC: 0, Kind: "call", Value: "0", Gas: 3_000_000, Data: bankLateErc, Label: "opener/seq-budget-11th", Pre: queries(10)},
+		c08In{PC: 0, Kind: "top", Value: "0", Gas: 1_000_000, Data: "01", Label: "opener/seq-budget-short-calldata", Pre: queries(10)},
+	)
 	return out
 }
 
@@ -873,20 +1343,23 @@ func TestC08(t *testing.T) {
 			if err := json.Unmarshal(raw, &in); err != nil {
 				t.Fatalf("replay input: %v", err)
 			}
-			if in.Kind == "tx" {
+			if strings.HasPrefix(in.Kind, "tx") {
 				continue // replayed by TestC08Tx
 			}
-			em.Emit(in, w.runCase(in), nil)
+			ri, ro := w.runCase(in)
+			em.Emit(ri, ro, nil)
 		}
 		return
 	}
 	for _, in := range w.openers() {
-		em.Emit(in, w.runCase(in), nil)
+		ri, ro := w.runCase(in)
+		em.Emit(ri, ro, nil)
 	}
 	root := NewRng(cfg.Seed)
 	for i := 0; i < cfg.N; i++ {
 		g := &gen{w: w, r: root.Fork()}
 		in := g.one()
-		em.Emit(in, w.runCase(in), nil)
+		ri, ro := w.runCase(in)
+		em.Emit(ri, ro, nil)
 	}
 }
